@@ -36,6 +36,13 @@ def main():
     shutil.copy(demo, os.path.join(out, 'demo.py'))
     meta = {'property': prop, 'variant': letter, 'source': 'independent sub-agent given only the property text',
             'ran': []}
+    try:
+        prev = json.load(open(os.path.join(out, 'meta.json')))
+        for k in ('change', 'needs_to_manifest', 'breaks_property'):
+            if prev.get(k):
+                meta[k] = prev[k]
+    except Exception:
+        pass
     notes = os.path.join(mdir, 'notes.md')
     if os.path.exists(notes):
         shutil.copy(notes, os.path.join(out, 'notes.md'))
